@@ -478,6 +478,9 @@ class TypeGen:
             if arg.origin is Literal:
                 ordered.append(self.from_hint_literal(Literal[tuple(arg.args)]))
                 continue
+            if arg.origin is None and not any(c.kind == "scalar:none" for c in cases):
+                ordered.append(self.scalar("none"))      # the None of a `Literal[..., None]` hint becomes a case of its own
+                continue
             for c in cases:
                 if normalize_type(c.hint) == arg:
                     ordered.append(c)
@@ -621,6 +624,38 @@ class TypeGen:
         sp.gen = g
         sp.aux = chain          # classes of values that are not cases themselves
         sp.related = True
+        return sp
+
+    def literal_union(self):
+        """Union with SEVERAL Literal hints (some listing None, which normalises to a nested Union[None, Literal[...]]) next to
+        a case whose dumper is not as-is, so the union dumper cannot take the all-as-is shortcut: every member of every Literal
+        hint is loaded and dumped by the Literal rule"""
+        rng = self.rng
+        pool = ["a", "b", "c", "", 0, 1, 2, -1, True, False]
+        n_lits = rng.choice([2, 2, 3])
+        lits, used = [], []
+        for _ in range(n_lits):
+            vals = [v for v in rng.sample(pool, rng.randint(1, 3)) if not any(type(v) is type(w) and v == w for w in used)]
+            if not vals:
+                continue
+            used += vals
+            if rng.random() < 0.5:
+                vals = vals + [None]
+            rng.shuffle(vals)
+            lits.append(Literal[tuple(vals)])
+        others = [self.scalar(rng.choice(["decimal", "bytes", "date", "uuid", "fraction"]))]
+        if rng.random() < 0.3:
+            others.append(self.scalar("float"))
+        hints = lits + [o.hint for o in others]
+        rng.shuffle(hints)
+        cases = [self.from_hint_literal(h) if h in lits else next(o for o in others if o.hint is h) for h in hints]
+        sp = self.union_from(Union[tuple(hints)], cases)
+        members = list(used) + ([None] if any(type(None) in map(type, typing.get_args(h)) for h in lits) else [])
+
+        def g(r, members=members, others=others):
+            return r.choice(members) if r.random() < 0.75 else r.choice(others).gen(r)
+        sp.gen = g
+        sp.literal_members = members
         return sp
 
     def unexpected_union(self):
@@ -1289,12 +1324,15 @@ class Engine:
         self.hostile = hostile.corpus()
 
     # ---- generation ------------------------------------------------------------------
-    def gen_specs(self, n, depth, user_leaves=False, related=False, stateful=False):
+    def gen_specs(self, n, depth, user_leaves=False, related=False, stateful=False, literal_unions=False):
         tg = TypeGen(self.ctx.rng, user_leaves=user_leaves, stateful=stateful)
         out = []
         for i in range(n):
             if user_leaves and i % 9 == 4:
                 out.append(tg.unexpected_union())
+            elif literal_unions and i % 8 == 6:
+                sp = tg.literal_union()
+                out.append(tg.wrap(self.ctx.rng.choice(["id", "id", "id", "list", "model"]), sp))
             elif related and i % 8 == 3:
                 sp = tg.related_union()
                 out.append(tg.wrap(self.ctx.rng.choice(["id", "id", "list", "dict", "model"]), sp))
